@@ -28,6 +28,8 @@ type recorder struct {
 	base inst
 	rng  *rand.Rand
 	out  *vh.Out
+
+	derUsed bool
 }
 
 // projection of the real derivative state to the code of CopySemantics.tla
@@ -280,7 +282,14 @@ func (r *recorder) choose() (st step, ok bool) {
 			return S(op, p, 0, 0, 0, 1+r.rng.Intn(2))
 		}
 	case "vars":
-		if realObj && n > 0 && !(o.sparse && anyZero) {
+		// with a sparse object in the history an all-zero derivative allocation may be observed as a
+		// constant, so the observed codes cannot exclude "already allocated with the same N": only
+		// before any derivative call then
+		anySparse := false
+		for _, x := range w.objs {
+			anySparse = anySparse || x.sparse
+		}
+		if realObj && n > 0 && !(o.sparse && anyZero) && !(anySparse && r.derUsed) {
 			okv := true
 			for _, d := range ders {
 				if d != 0 && d/100 == n {
@@ -335,6 +344,9 @@ func (r *recorder) choose() (st step, ok bool) {
 
 func (r *recorder) book(st step) {
 	s := st.S - 1
+	if st.Op == "der" || st.Op == "vars" {
+		r.derUsed = true
+	}
 	switch st.Op {
 	case "clone", "asSame", "asFlip", "asType", "row", "col":
 		r.m = append(r.m, meta{group: len(r.m)})
